@@ -25,7 +25,7 @@ for p in props:
     })
 m = {
     "version": 1,
-    "setup_cmd": "cd lean && lake build",
+    "setup_cmd": "cd lean && lake build $(cat ../tools/targets.txt)",
     "hooks": {"guard": "OPERON_VERIF", "enable": "no source hooks are needed: clocks, locks, library recorders and stub agents are substituted from the harness process through public attributes; ./check exports OPERON_VERIF=1 for uniformity",
               "baseline_off_cmd": base.replace(" --junitxml=<file>", ""), "source_commits": [], "add_only": True},
     "engines": [
@@ -36,4 +36,10 @@ m = {
     "not_applicable": na,
 }
 json.dump(m, open(os.path.join(here, "MANIFEST.json"), "w"), indent=1)
+tg = []
+for c in checks:
+    for kind in ("Props", "Drv"):
+        if os.path.exists(os.path.join(here, "lean", "Operon", kind, c["property_id"] + ".lean")):
+            tg.append(f"Operon.{kind}.{c['property_id']}")
+open(os.path.join(here, "tools", "targets.txt"), "w").write(" ".join(tg) + "\n")
 print("MANIFEST.json:", len(checks), "checks,", len(na), "not claimed")
